@@ -1,0 +1,20 @@
+//go:build verif
+
+package sparseindex
+
+import "github.com/openGemini/openGemini/lib/record"
+
+// Thin wrapper for the C20 verification harness (build tag verif). No behaviour.
+
+// VerifIndexRowRefs returns the field references PKIndexReaderImpl.Scan hands to MayBeInRange for row `row` of the
+// primary-index record (first usedKeySize columns), built by the reader's own createFieldRefFunc, so that the harness
+// reads a null index cell exactly the way the reader does.
+func (r *PKIndexReaderImpl) VerifIndexRowRefs(index *record.Record, usedKeySize int, row int) []*FieldRef {
+	create := r.createFieldRefFunc(index, index.Schema, usedKeySize)
+	refs := make([]*FieldRef, usedKeySize)
+	for i := range refs {
+		refs[i] = &FieldRef{}
+		create(row, i, refs[i])
+	}
+	return refs
+}
